@@ -9,8 +9,8 @@ use serde::{Deserialize, Serialize};
 
 use crate::cfg::{AvailableValueMap, MathOp, RegisterSet};
 use crate::parser::{
-    CsrImm, HasRegisterSets, InstructionProperties, LabelString, LabelStringToken,
-    RegisterProperties,
+    CsrImm, HasRegisterSets, InstructionProperties, LabelString, LabelStringToken, LoadType,
+    RegisterProperties, StoreType,
 };
 use crate::parser::{ParserNode, Register};
 use crate::passes::{CfgError, GenerationPass};
@@ -214,6 +214,7 @@ impl GenerationPass for AvailableValuePass {
                     } else if let Some((memory, value)) = node.gen_memory_value() {
                         map.insert(memory, value);
                     }
+                    forget_overwritten_stack_slots(&node.node(), &node.reg_values_in(), &mut map);
                     map
                 };
 
@@ -259,6 +260,46 @@ impl GenerationPass for AvailableValuePass {
             }
         }
         Ok(())
+    }
+}
+
+/// Forget what is known about stack slots that this node may overwrite
+/// without the analysis knowing the new contents.
+///
+/// - A byte or half-word store changes part of the word at that slot.
+/// - A store through a stack pointer whose offset is unknown may hit any slot.
+/// - A called function may use the stack below the current stack pointer.
+fn forget_overwritten_stack_slots(
+    node: &ParserNode,
+    available_in: &AvailableValueMap<Register>,
+    memory: &mut AvailableValueMap<MemoryLocation>,
+) {
+    let stack_offset = available_in.stack_offset();
+    if let ParserNode::Store(store) = node {
+        if store.rs1.get().is_stack_pointer() {
+            match stack_offset {
+                Some(sp) if *store.inst.get() != StoreType::Sw => {
+                    let address = i64::from(sp) + i64::from(store.imm.get().value());
+                    memory.retain(|location, _| match location {
+                        MemoryLocation::StackOffset(slot) => {
+                            !(i64::from(*slot)..i64::from(*slot) + 4).contains(&address)
+                        }
+                        _ => true,
+                    });
+                }
+                Some(_) => {}
+                None => {
+                    memory.retain(|location, _| !matches!(location, MemoryLocation::StackOffset(_)))
+                }
+            }
+        }
+    }
+    if node.calls_to().is_some() {
+        memory.retain(|location, _| match (location, stack_offset) {
+            (MemoryLocation::StackOffset(slot), Some(sp)) => *slot >= sp,
+            (MemoryLocation::StackOffset(_), None) => false,
+            _ => true,
+        });
     }
 }
 
@@ -388,10 +429,17 @@ fn rule_perform_math_ops(
 /// the stack contains a value at the offset, then store the value from the
 /// stack into the register.
 fn rule_value_from_stack(
-    node: &impl InstructionProperties,
+    node: &ParserNode,
     available_out: &mut AvailableValueMap<Register>,
     memory_in: &AvailableValueMap<MemoryLocation>,
 ) {
+    // Only whole words are tracked: a byte or half-word load does not
+    // produce the value that was stored
+    if let ParserNode::Load(load) = node {
+        if !matches!(load.inst.get(), LoadType::Lw | LoadType::Lwu) {
+            return;
+        }
+    }
     if let Some(reg) = node.writes_to() {
         if let Some(AvailableValue::ValueInCsr(csr)) = available_out.get(reg.get()) {
             if let Some(csr_value) = memory_in.get(&MemoryLocation::CsrRegister(*csr)) {
